@@ -126,6 +126,30 @@ func runClient(s ClientScript, v *vt.V) {
 			view.MountBlob(ctx, c.From, c.Repo, dg)
 		case "Tags":
 			ociregistry.All(view.Tags(ctx, c.Repo, ""))
+		case "Repositories":
+			// the view's listing is the backend's, restricted and stripped; the sequence it returns is
+			// as good the second time (also after a run that stopped early) as the first
+			var want []string
+			all, _ := ociregistry.All(mem.Repositories(ctx, ""))
+			for _, n := range all {
+				if rest, ok := strings.CutPrefix(n, p+"/"); ok {
+					want = append(want, rest)
+				}
+			}
+			seq := view.Repositories(ctx, "")
+			if c.Ref == "inside" {
+				for _, err := range seq {
+					_ = err
+					break
+				}
+			}
+			for run := 0; run < 2; run++ {
+				got, err := ociregistry.All(seq)
+				if err != nil || fmt.Sprint(got) != fmt.Sprint(want) {
+					v.Failf("wrong-listing", "Sub(client,%q): %s: run %d of the sequence (early stop first: %v) gave %v, %v; the backend's listing under the prefix is %v", p, what, run+1, c.Ref == "inside", got, err, want)
+					return
+				}
+			}
 		case "ResumeRewritten":
 			// an upload id obtained through the view, rewritten to name a repository outside the
 			// prefix, then resumed through the view
@@ -181,7 +205,7 @@ func runClient(s ClientScript, v *vt.V) {
 var propClient = &vt.Prop[ClientScript]{
 	ID:   "C13",
 	Name: "SubOverClientConfinement",
-	Rule: "the view is laid over an ociclient talking (in-memory HTTP) to an ociserver over ocimem; the backend holds siblings outside the prefix (other, other/blah, <prefix>ey/x, <prefix> itself, the prefix's first element, zz) with a secret blob and a tagged manifest, and one repository inside; 1-6 calls (reads, deletes, pushes, mounts in both directions, chunked uploads, tag listings, and resuming an upload id obtained through the view after rewriting it to name a repository outside) use names that contain URL syntax ('?', '#', '&', '=', percent escapes, injected query parameters such as mount= and from=, fragments that cut the path short) besides dot segments and well-formed names; oracle = no read returns the outside content, the outside content never becomes readable inside the view, and everything outside the prefix is unchanged afterwards; non-trivial = some name contains URL syntax; distinct = (prefix, calls)",
+	Rule: "the view is laid over an ociclient talking (in-memory HTTP) to an ociserver over ocimem; the backend holds siblings outside the prefix (other, other/blah, <prefix>ey/x, <prefix> itself, the prefix's first element, zz) with a secret blob and a tagged manifest, and one repository inside; 1-6 calls (reads, deletes, pushes, mounts in both directions, chunked uploads, tag listings, and resuming an upload id obtained through the view after rewriting it to name a repository outside) use names that contain URL syntax ('?', '#', '&', '=', percent escapes, injected query parameters such as mount= and from=, fragments that cut the path short) besides dot segments and well-formed names; oracle = the view's repository listing, run twice (sometimes after a run that stopped at the first item), is each time the backend's restricted to the prefix; no read returns the outside content, the outside content never becomes readable inside the view, and everything outside the prefix is unchanged afterwards; non-trivial = some name contains URL syntax; distinct = (prefix, calls)",
 	Gen: func(t *rapid.T) ClientScript {
 		s := ClientScript{Prefix: rapid.SampledFrom([]string{"p", "foo", "foo/bar"}).Draw(t, "prefix"), Nested: rapid.IntRange(0, 3).Draw(t, "nested") == 0}
 		sd := digest.FromBytes([]byte("content that exists only outside the prefix")).String()
@@ -195,7 +219,7 @@ var propClient = &vt.Prop[ClientScript]{
 		}
 		n := rapid.IntRange(1, 6).Draw(t, "ncalls")
 		for i := 0; i < n; i++ {
-			c := ClientCall{Method: rapid.SampledFrom([]string{"GetBlob", "GetManifest", "GetTag", "ResolveBlob", "DeleteBlob", "DeleteManifest", "DeleteTag", "PushManifest", "PushBlob", "MountBlob", "MountBlob", "Tags", "Chunked", "ResumeRewritten"}).Draw(t, "method")}
+			c := ClientCall{Method: rapid.SampledFrom([]string{"GetBlob", "GetManifest", "GetTag", "ResolveBlob", "DeleteBlob", "DeleteManifest", "DeleteTag", "PushManifest", "PushBlob", "MountBlob", "MountBlob", "Tags", "Chunked", "ResumeRewritten", "Repositories"}).Draw(t, "method")}
 			c.Repo = name("repo")
 			c.Ref = rapid.SampledFrom([]string{"secret", "secret", "inside"}).Draw(t, "ref")
 			if c.Method == "MountBlob" {
